@@ -2,7 +2,7 @@
 use serde_json::json;
 
 use super::*;
-use crate::corpus::Corpus;
+use crate::corpus::{Corpus, compile_source};
 use crate::engine::{CaseResult, PropertyDef, Tier};
 use crate::host::Ev;
 use crate::rng::Rng;
@@ -17,7 +17,8 @@ pub static DEF: PropertyDef = PropertyDef {
            look-ahead-safe, bound not-safe, unbound without fallbacks. Oracles over the recorded history (every peer call and every delivered line stamped with the global event \
            sequence number): printed value == want in every mode (argument order, value used where the call stands); safe: never refused, at least one call for every site \
            whose post line was delivered, transcript identical to the fallback run; not-safe: exactly one call per executed site (none twice), never before its pre line was \
-           delivered, string/choice-text sites refused with an error and never reaching the peer; unbound without fallback: first continue returns Err, no panic. \
+           delivered, string/choice-text sites refused with an error and never reaching the peer; unbound without fallback: first continue returns Err, no panic; bound, then unbound by the host at a \
+           seeded point of the history with fallbacks allowed (program as generated, and with its Ink fallbacks removed): no host call after the unbind, Ok or Err, never a panic. \
            Non-trivial = at least one site's call was committed under the safe binding; distinct = hash of program+history.",
     assumptions: &["external peers are pure functions of their arguments (what look-ahead-safe means)"],
     runs_quick: 10000,
@@ -25,7 +26,7 @@ pub static DEF: PropertyDef = PropertyDef {
     exhaustive_note: "four binding configurations for every sampled history",
     generate,
     execute,
-    must_hit: &["fault.external.committed_call", "fault.external.value_checked", "fault.external.string_position_safe", "fault.external.string_position_refused", "fault.external.unbound_rejected", "probe.unsafe_external_deferred", "fault.external.speculative_safe_call", "fault.external.unsafe_after_preceding_line"],
+    must_hit: &["fault.external.committed_call", "fault.external.value_checked", "fault.external.string_position_safe", "fault.external.string_position_refused", "fault.external.unbound_rejected", "fault.external.unbound_mid_history", "fault.external.unbound_mid_history_call_rejected", "probe.unsafe_external_deferred", "fault.external.speculative_safe_call", "fault.external.unsafe_after_preceding_line"],
     timeout_s: 30,
     hang_class: None,
     sub_builds: &[],
@@ -135,6 +136,26 @@ fn site_ids(src: &str, marker: &str) -> Vec<i64> {
     v
 }
 
+/// The source without the Ink fallback functions of the externals (`=== function <ext>(..) ===` blocks).
+fn strip_fallbacks(src: &str, names: &[String]) -> Option<String> {
+    let mut out = String::new();
+    let mut skipping = false;
+    let mut removed = 0;
+    for l in src.lines() {
+        if l.starts_with("===") {
+            skipping = names.iter().any(|n| l.starts_with(&format!("=== function {n}(")));
+            if skipping {
+                removed += 1;
+            }
+        }
+        if !skipping {
+            out.push_str(l);
+            out.push('\n');
+        }
+    }
+    if removed == 0 { None } else { Some(out) }
+}
+
 fn execute(case: &Case) -> CaseResult {
     let mut res = CaseResult::default();
     let prog = &case.program;
@@ -160,6 +181,44 @@ fn execute(case: &Case) -> CaseResult {
             Res::Panic(st, m) => fail!("panic", st, &crate::host::norm_msg(m), "first continue, unbound without fallbacks".to_string(), "Err".to_string(), r.brief()),
             Res::Ok(_) => fail!("external:unbound", "validate_external_bindings", "continue succeeded with unbound externals and fallbacks disabled", "first continue".to_string(), "Err".to_string(), r.brief()),
             _ => {}
+        }
+    }
+    // ---- bound at first, unbound by the host in the middle of the history (fallbacks allowed): with an Ink
+    // fallback the story plays on through it, without one the next call is an error - never a panic. The
+    // bindings were validated by the first continue; nothing may rely on that after an unbind.
+    {
+        let at = (res.fingerprint as usize) % case.ops.len().max(1);
+        let stripped = strip_fallbacks(&src, &names).and_then(|s2| compile_source(&s2, None).ok()).and_then(|json| Program::from_json("generated", &format!("{}-nofallback", prog.name), None, json));
+        for (what, p) in [("with Ink fallbacks", Some(prog.clone())), ("without Ink fallbacks", stripped)] {
+            let Some(p) = p else { continue };
+            let Ok(mut x) = Host::new(&p, &mk(bind(true), true)) else { continue };
+            let mut unbound = false;
+            for (i, op) in case.ops.iter().enumerate() {
+                if i == at {
+                    for n in &names {
+                        let _ = x.apply(&Op::Unbind { name: n.clone() });
+                    }
+                    unbound = true;
+                    res.stats.inc("fault.external.unbound_mid_history");
+                }
+                let before = x.log.borrow().len();
+                let r = x.apply(op);
+                if x.fuel_out {
+                    break;
+                }
+                if let Res::Panic(st, m) = &r {
+                    fail!("panic", st, &crate::host::norm_msg(m), format!("op {i} {} (bound, unbound before op {at}, {what})", op.short()), "Ok/Err".to_string(), r.brief());
+                    break;
+                }
+                if unbound && x.log.borrow()[before..].iter().any(|e| matches!(e, Ev::External { .. })) {
+                    fail!("external:called-after-unbind", "unbind_external_function", "the host function was called after it had been unbound", format!("op {i} {} ({what})", op.short()), "no call".to_string(), "a call".to_string());
+                    break;
+                }
+                if unbound && matches!(r, Res::Err(..)) {
+                    res.stats.inc("fault.external.unbound_mid_history_call_rejected");
+                    break;
+                }
+            }
         }
     }
     // ---- play the history under the three working configurations
